@@ -206,3 +206,249 @@ def sparse (n : Nat) (r : Rng) (frc : Bool) : List Position × Rng :=
   go (n * 40) n [] r
 
 end Rawr.GenPos
+
+namespace Rawr.GenPos
+open Rawr Spec
+
+/-- a board under construction: later placements never overwrite earlier ones. -/
+abbrev Placement := List (Nat × Piece)
+
+def place (b : Placement) (s : Nat) (pc : Piece) : Placement :=
+  if s < 64 && !(b.any fun x => x.1 == s) then b ++ [(s, pc)] else b
+
+def boardOf (b : Placement) : Board := fun s => (b.find? fun x => x.1 == s).map (·.2)
+
+def randKind (r : Rng) (ks : List Kind) : Kind × Rng :=
+  let (i, r) := r.below ks.length
+  (ks.getD i .rook, r)
+
+def fillers (n : Nat) (b : Placement) (r : Rng) : Placement × Rng :=
+  match n with
+  | 0 => (b, r)
+  | n + 1 =>
+    let (s, r) := r.below 64
+    let (k, r) := randKind r [.pawn, .pawn, .knight, .bishop, .rook, .queen]
+    let (w, r) := r.below 2
+    fillers n (place b s ⟨w == 0, k⟩) r
+
+/-- one hazard for a square `t` of the back rank `hr` (as seen by colour `white`): an enemy piece attacking or occupying it. -/
+def hazard (white : Bool) (t : Nat) (b : Placement) (r : Rng) : Placement × Rng :=
+  let (k, r) := r.below 7
+  let f := file t
+  let rk := rank t
+  let dir : Int := if white then 1 else -1
+  let (d, r) := r.below 7
+  let dist : Int := (d : Int) + 1
+  let put (ff rr : Int) (pc : Piece) : Placement := if onBoard ff rr then place b (sq ff rr) pc else b
+  match k with
+  | 0 => -- enemy rook/queen somewhere on the back rank
+    let (g, r) := r.below 8
+    let (q, r) := r.below 2
+    (place b (sq g rk) ⟨!white, if q == 0 then .rook else .queen⟩, r)
+  | 1 => let (q, r) := r.below 2
+         (put f (rk + dir * dist) ⟨!white, if q == 0 then .rook else .queen⟩, r)
+  | 2 => let (sgnf, r) := r.below 2
+         let (q, r) := r.below 2
+         (put (f + (if sgnf == 0 then dist else -dist)) (rk + dir * dist) ⟨!white, if q == 0 then .bishop else .queen⟩, r)
+  | 3 => let (j, r) := r.below 4
+         let offs : List (Int × Int) := [(1, 2), (-1, 2), (2, 1), (-2, 1)]
+         let (df, dr) := offs.getD j (1, 2)
+         (put (f + df) (rk + dir * dr) ⟨!white, .knight⟩, r)
+  | 4 => let (sgnf, r) := r.below 2
+         (put (f + (if sgnf == 0 then 1 else -1)) (rk + dir) ⟨!white, .pawn⟩, r)
+  | 5 => let (w, r) := r.below 2
+         let (kk, r) := randKind r [.knight, .bishop, .queen, .rook]
+         (place b t ⟨w == 0, kk⟩, r)
+  | _ => (b, r)
+
+/-- castling patterns: every king file / rook file combination, inner and outer rooks, hazards on and
+around the king's and rook's paths (attacked squares, occupied squares, a rook or queen on the back
+rank behind the castling rook), both colours, independent geometry for the opponent (double-960). -/
+def castlePattern (r : Rng) : APos × Rng :=
+  let (wtm, r) := r.below 2
+  let w := wtm == 0
+  let side (white : Bool) (b : Placement) (r : Rng) : Placement × Option Nat × Option Nat × Nat × Rng :=
+    let hr := homeRank white
+    let (kf0, r) := r.below 6
+    let kf := kf0 + 1
+    let b := place b (sq kf hr) ⟨white, .king⟩
+    let (hasK, r) := r.below 4
+    let (hasQ, r) := r.below 4
+    let (rk0, r) := r.below (7 - kf)
+    let rfK := kf + 1 + rk0
+    let (rq0, r) := r.below kf
+    let rfQ := rq0
+    let b := if hasK != 0 then place b (sq rfK hr) ⟨white, .rook⟩ else b
+    let b := if hasQ != 0 then place b (sq rfQ hr) ⟨white, .rook⟩ else b
+    -- sometimes a second own rook on the same wing (inner / outer rook)
+    let (ex, r) := r.below 4
+    let (exf, r) := r.below 8
+    let b := if ex == 0 then place b (sq exf hr) ⟨white, .rook⟩ else b
+    (b, (if hasK != 0 then some rfK else none), (if hasQ != 0 then some rfQ else none), kf, r)
+  let (b, wK, wQ, wkf, r) := side true [] r
+  -- the opponent: often a bare king far away, sometimes its own castling set-up
+  let (opp, r) := r.below 3
+  let (b, bK, bQ, bkf, r) :=
+    if opp == 0 then side false b r
+    else
+      let (f, r) := r.below 8
+      let (rr, r) := r.below 3
+      (place b (sq f (7 - rr)) ⟨false, .king⟩, none, none, f, r)
+  let _ := bkf
+  let _ := wkf
+  -- a rook or queen of the opponent on the back rank BEHIND the mover's castling rook (the rook shields the king's path)
+  let (sh, r) := r.below 3
+  let (shq, r) := r.below 2
+  let (shd, r) := r.below 7
+  let b :=
+    if sh == 0 then
+      let hrm := homeRank w
+      let (oK, oQ) := if w then (wK, wQ) else (bK, bQ)
+      let pc : Piece := ⟨!w, if shq == 0 then .rook else .queen⟩
+      let b := match oQ with
+        | some f => if f ≥ 1 then place b (sq ((shd % f : Nat) : Int) hrm) pc else b
+        | none => b
+      match oK with
+      | some f => if f ≤ 6 then place b (sq ((f + 1 + shd % (7 - f) : Nat) : Int) hrm) pc else b
+      | none => b
+    else b
+  -- hazards around the mover's back rank
+  let hr := homeRank w
+  let (nh, r) := r.below 3
+  let rec hz (n : Nat) (b : Placement) (r : Rng) : Placement × Rng :=
+    match n with
+    | 0 => (b, r)
+    | n + 1 =>
+      let (f, r) := r.below 8
+      let (b, r) := hazard w (sq f hr) b r
+      hz n b r
+  let (b, r) := hz nh b r
+  let (nf, r) := r.below 3
+  let (b, r) := fillers nf b r
+  let board := boardOf b
+  -- keep only rights that are really backed after the placements
+  let backed (white ks : Bool) (o : Option Nat) : Option Nat :=
+    match o with
+    | some f => if board (sq f (homeRank white)) == some ⟨white, .rook⟩ then some f else none
+    | none => none
+  let a : APos := { board := board, whiteToMove := w, wK := backed true true wK, wQ := backed true false wQ,
+                    bK := backed false true bK, bQ := backed false false bQ, ep := none, half := 0, full := 1 }
+  (freeze a, r)
+
+/-- en-passant patterns: capturer(s) beside a pawn that has just made a double push; own king on the
+pawns' rank / on a diagonal or file through the capturer or the captured pawn / giving check by the
+pushed pawn; enemy sliders on those lines. -/
+def epPattern (r : Rng) : APos × Rng :=
+  let (wtm, r) := r.below 2
+  let w := wtm == 0
+  let r5 : Int := if w then 4 else 3
+  let r6 : Int := if w then 5 else 2
+  let dir : Int := if w then 1 else -1
+  let (pf0, r) := r.below 8
+  let pf : Int := pf0
+  let b : Placement := place [] (sq pf r5) ⟨!w, .pawn⟩
+  let (which, r) := r.below 3
+  let b := if which != 1 && onBoard (pf - 1) r5 then place b (sq (pf - 1) r5) ⟨w, .pawn⟩ else b
+  let b := if which != 0 && onBoard (pf + 1) r5 then place b (sq (pf + 1) r5) ⟨w, .pawn⟩ else b
+  let capf : Int := if which == 1 then pf + 1 else pf - 1
+  -- own king
+  let (km, r) := r.below 6
+  let (kd, r) := r.below 7
+  let d : Int := (kd : Int) + 1
+  let (sg, r) := r.below 2
+  let s : Int := if sg == 0 then 1 else -1
+  let (kf, kr) : Int × Int :=
+    match km with
+    | 0 => (capf + s * d, r5)                    -- same rank as the pawns
+    | 1 => (capf + s * d, r5 - dir * d)          -- diagonal through the capturer (behind it)
+    | 2 => (capf, r5 - dir * d)                  -- file of the capturer
+    | 3 => (pf + s * d, r5 - dir * d)            -- diagonal through the captured pawn
+    | 4 => (pf + s, r5 - dir)                    -- attacked by the pushed pawn (check)
+    | _ => (capf + s * d, r5 + dir * d)
+  let (rf, r) := r.below 8
+  let (rr, r) := r.below 8
+  let b := if onBoard kf kr then place b (sq kf kr) ⟨w, .king⟩ else place b (sq rf rr) ⟨w, .king⟩
+  let b := if b.any (fun x => x.2 == ⟨w, .king⟩) then b else place b (sq ((rf + 3) % 8) ((rr + 5) % 8)) ⟨w, .king⟩
+  -- enemy king somewhere
+  let (ef, r) := r.below 8
+  let (er, r) := r.below 8
+  let b := place b (sq ef er) ⟨!w, .king⟩
+  let b := if b.any (fun x => x.2 == ⟨!w, .king⟩) then b else place b (sq ((ef + 5) % 8) ((er + 3) % 8)) ⟨!w, .king⟩
+  -- enemy sliders on the critical lines
+  let (ns, r) := r.below 3
+  let rec sl (n : Nat) (b : Placement) (r : Rng) : Placement × Rng :=
+    match n with
+    | 0 => (b, r)
+    | n + 1 =>
+      let (m, r) := r.below 4
+      let (dd, r) := r.below 7
+      let e : Int := (dd : Int) + 1
+      let (sg, r) := r.below 2
+      let s : Int := if sg == 0 then 1 else -1
+      let (q, r) := r.below 2
+      let (f, k, pc) : Int × Int × Piece :=
+        match m with
+        | 0 => (capf + s * e, r5, ⟨!w, if q == 0 then .rook else .queen⟩)
+        | 1 => (capf + s * e, r5 + dir * e, ⟨!w, if q == 0 then .bishop else .queen⟩)
+        | 2 => (pf + s * e, r5 + dir * e, ⟨!w, if q == 0 then .bishop else .queen⟩)
+        | _ => (capf, r5 + dir * e, ⟨!w, if q == 0 then .rook else .queen⟩)
+      sl n (if onBoard f k && sq f k != sq pf r6 && sq f k != sq pf (r6 + dir) then place b (sq f k) pc else b) r
+  let (b, r) := sl ns b r
+  let (nf, r) := r.below 3
+  let (b, r) := fillers nf b r
+  -- the ep square and the origin square must stay empty
+  let b := b.filter fun x => x.1 != sq pf r6 && x.1 != sq pf (r6 + dir)
+  let a : APos := { board := boardOf b, whiteToMove := w, wK := none, wQ := none, bK := none, bQ := none,
+                    ep := some (sq pf r6), half := 0, full := 1 }
+  (freeze a, r)
+
+/-- promotion patterns: a pawn on the seventh next to / in front of back-rank pieces, incl. a castling
+rook that still carries its right (promotion-capture of a castling rook). -/
+def promoPattern (r : Rng) : APos × Rng :=
+  let (wtm, r) := r.below 2
+  let w := wtm == 0
+  let r7 : Int := if w then 6 else 1
+  let r8 : Int := if w then 7 else 0
+  let (ekf0, r) := r.below 6
+  let ekf := ekf0 + 1
+  let b : Placement := place [] (sq ekf r8) ⟨!w, .king⟩
+  let (rk0, r) := r.below (7 - ekf)
+  let rfK := ekf + 1 + rk0
+  let (rq0, r) := r.below ekf
+  let rfQ := rq0
+  let b := place (place b (sq rfK r8) ⟨!w, .rook⟩) (sq rfQ r8) ⟨!w, .rook⟩
+  let (side, r) := r.below 2
+  let target : Int := if side == 0 then rfK else rfQ
+  let (off, r) := r.below 3
+  let pfile : Int := target + (off : Int) - 1
+  let b := if onBoard pfile r7 then place b (sq pfile r7) ⟨w, .pawn⟩ else b
+  let (kf, r) := r.below 8
+  let (kr, r) := r.below 4
+  let b := place b (sq kf (if w then kr else 7 - kr)) ⟨w, .king⟩
+  let b := if b.any (fun x => x.2 == ⟨w, .king⟩) then b else place b (sq ((kf + 4) % 8) (if w then 0 else 7)) ⟨w, .king⟩
+  let (nf, r) := r.below 4
+  let (b, r) := fillers nf b r
+  let board := boardOf b
+  let backed (f : Nat) : Option Nat := if board (sq f r8) == some ⟨!w, .rook⟩ then some f else none
+  let a : APos := { board := board, whiteToMove := w,
+                    wK := if w then none else backed rfK, wQ := if w then none else backed rfQ,
+                    bK := if w then backed rfK else none, bQ := if w then backed rfQ else none,
+                    ep := none, half := 0, full := 1 }
+  (freeze a, r)
+
+/-- `n` accepted pattern positions (kind: 0 castling, 1 en passant, 2 promotion). -/
+def patterns (kind : Nat) (n : Nat) (r : Rng) (frc : Bool) : List Position :=
+  let rec go (fuel : Nat) (n : Nat) (acc : List Position) (r : Rng) : List Position :=
+    match fuel, n with
+    | 0, _ => acc
+    | _, 0 => acc
+    | fuel + 1, n + 1 =>
+      let (a, r) := match kind with
+        | 0 => castlePattern r
+        | 1 => epPattern r
+        | _ => promoPattern r
+      if Spec.Valid a && Spec.EpConsistent a then go fuel n (rel a frc :: acc) r
+      else go fuel (n + 1) acc r
+  go (n * 60) n [] r
+
+end Rawr.GenPos
